@@ -19,7 +19,7 @@ CodeView0 == [heav |-> "zero", ceil |-> "id"]
 CeilId    == [heav |-> "real", ceil |-> "id"]
 
 MonoOK(c) ==
-  IF c.kind # "d" \/ c.f.h = "none" \/ c.v = "unknown" THEN "n/a"
+  IF c.kind # "d" \/ c.f.h = "none" \/ c.v = "unknown" \/ Cardinality(Box(c.b)) > 100 THEN "n/a"
   ELSE LET m == Mono(c.f, c.b, c.s) IN
        IF ~m.defined THEN "undefined"
        ELSE IF (c.v = "geq" /\ m.up) \/ (c.v = "leq" /\ m.down) \/ (c.v = "eq" /\ m.up /\ m.down)
